@@ -10,6 +10,7 @@ import unicodedata
 from typing import Any, Dict, Iterable, List, Optional
 
 from harness.core import Case, Check, Finding, Infra, call, canon
+from harness.guard import guarded
 
 ALPHA = 'aB1.-=„ \t _é'            # adversarial alphabet (12 symbols)
 BREAK_SETS = ['-', '-=:', '„-']
@@ -45,21 +46,40 @@ def _real():
     return text_helper, text_stats
 
 
-def eff_B(fn, B: Optional[str]) -> str:
+def eff_B(fn, B: Optional[str]) -> Optional[str]:
     """the break characters in effect for a call of the real function `fn`: the ones passed, else (B is None:
     the function is called WITHOUT word_break_chars) the default the function declares — its public
     interface, read with inspect for the ORACLE only; the model gets `null` and uses the default that
-    harness/translate.py regenerated from the source (no copy of the default lives in the harness)"""
+    harness/translate.py regenerated from the source (no copy of the default lives in the harness).
+    None when the interface declares no character collection (a sentinel such as None that the body resolves):
+    the oracle then judges only what does not depend on the break characters (totality, shape, labels,
+    fresh-process agreement) — it must never fail on an unexpected signature"""
     if B is not None:
         return B
     import inspect
-    d = inspect.signature(fn).parameters['word_break_chars'].default
-    return d if isinstance(d, str) else ''.join(sorted(d))
+    try:
+        d = inspect.signature(fn).parameters['word_break_chars'].default
+    except (KeyError, TypeError, ValueError):
+        return None
+    if isinstance(d, str):
+        return d
+    if isinstance(d, (set, frozenset, list, tuple)) and all(isinstance(c, str) for c in d):
+        return ''.join(sorted(d))
+    return None
 
 
-def wbc_kw(B: Optional[str]) -> Dict[str, Any]:
-    """keyword arguments for a real call: nothing when the default is to apply"""
-    return {} if B is None else {'word_break_chars': B}
+def wbc_kw(B: Optional[str], form: str = 'str') -> Dict[str, Any]:
+    """keyword arguments for a real call: nothing when the default is to apply; `form` is the Python type in
+    which the break characters are handed over ('str' in the order given, 'set', 'list', 'tuple')"""
+    if B is None:
+        return {}
+    if form == 'set':
+        return {'word_break_chars': set(B)}
+    if form == 'list':
+        return {'word_break_chars': list(B)}
+    if form == 'tuple':
+        return {'word_break_chars': tuple(B)}
+    return {'word_break_chars': B}
 
 
 # the statement's reading of "hyphens" for remove_hyphen (the oracle keeps its own reading; that the character
@@ -72,6 +92,10 @@ DEFAULT_POOL = '-=:'      # break-like characters for the lines of the default-a
 
 def is_space(ch: str) -> bool:
     return ch.isspace()
+
+
+def short_(o: Dict[str, Any]) -> Dict[str, Any]:
+    return {k: v for k, v in o.items() if k in ('ok', 'err')}
 
 
 def nospace(s: str) -> str:
@@ -143,15 +167,18 @@ def make_detector(spec: Optional[Dict[str, Any]]):
     with contextlib.redirect_stdout(io.StringIO()):
         if 'gen' in spec:
             g = spec['gen']
+            # detector options: `ignorecase` is passed only when the spec names it (the constructor's default otherwise)
+            okw = {'ignorecase': g['ignorecase']} if 'ignorecase' in g else {}
             if g.get('default_B'):
                 # the detector's own default break characters (exported to the model as the object's data)
-                wbd = ts.WordBreakDetector(min_bigram_word_freq=g.get('min_bigram', 5), lines=gen_corpus(g))
+                wbd = ts.WordBreakDetector(min_bigram_word_freq=g.get('min_bigram', 5), lines=gen_corpus(g), **okw)
             else:
                 wbd = ts.WordBreakDetector(min_bigram_word_freq=g.get('min_bigram', 5), word_break_chars=g['B'],
-                                           lines=gen_corpus(g))
+                                           lines=gen_corpus(g), **okw)
         else:
             t = spec['tables']
-            wbd = ts.WordBreakDetector(word_break_chars=t['B'])
+            okw = {'ignorecase': t['ignorecase']} if 'ignorecase' in t else {}
+            wbd = ts.WordBreakDetector(word_break_chars=t['B'], **okw)
             for k in ('all', 'mid', 'start', 'end'):
                 for w, n in t[k]:
                     wbd.freq[k][w] = n
@@ -358,6 +385,7 @@ def rand_line(rng: random.Random, B: str, maxlen: int = 30) -> str:
     return ''.join(rng.choice(UNI_POOL + B) for _ in range(rng.randint(0, maxlen)))
 
 
+@guarded
 class C17(Check):
     pid = 'C17'
     props_module = 'PagexmlModel.Props.C17'
@@ -377,7 +405,12 @@ class C17(Check):
                   'CPython re / str methods are tied to the CharClass record by the correspondence only. The factors, '
                   'thresholds, hyphen literals and default break characters of the code are regenerated from the '
                   'source on every run (Generated/C17.lean); the theorems hold for every value of them, except that '
-                  'remove_hyphen\'s character set has to stay within - = : (C17_consts_*)')
+                  'remove_hyphen\'s character set has to stay within - = : (C17_consts_*). Wave 4: a break-character '
+                  'SET is exercised in every order of its characters and as str / set / list / tuple (the model\'s '
+                  'membership test has no order), with line ends over all pairs of characters inside / between / outside '
+                  'the set; detectors are built with ignorecase on and off (trained and as arbitrary records, capitals in '
+                  'either junction word); every call is made twice on the same detector / argument objects and must '
+                  'answer the same, leaving detector, break-character container and word lists unchanged')
     assumptions = [
         're.split(r"\\b", s) yields the maximal runs of \\w / non-\\w characters with an empty first/last piece at a '
         'word edge (sampled: op re_split)',
@@ -530,6 +563,98 @@ class C17(Check):
                              [rand_line(rng, P, 8), rand_line(rng, P, 8)])
             out.append(Case('pairs', {'B': None, 'det': {'gen': g}, 'pairs': pairs},
                             ['random', 'trained-detector', 'default-break']))
+        out += self._wave4_cases(rng, quick)
+        return out
+
+    # wave 4 (everything below draws from rng AFTER the streams above, which are unchanged) ---------------------
+    # STATEMENT: "for any string and any set of break characters" / quantifier: "break-character sets '-', '-=:' and
+    # multi-character sets with non-ASCII marks; detectors trained on generated corpora".  A SET has no order and no
+    # preferred Python type: every order of the characters of a multi-character set, handed over as str / set / list /
+    # tuple, is the same set — and every detector OPTION (ignorecase) is a detector.
+    PERM_SETS = ['-=:', '-=+', '-¬„', '-]^', '-\\.', '-:=;', '-[a']
+
+    @staticmethod
+    def _between(B: str) -> str:
+        """the characters a careless range reading of the set would take in or leave out: everything between the
+        code points of two members (capped), plus the members, a letter, a digit pair and a blank"""
+        cps = sorted(ord(c) for c in B if ord(c) < 128)
+        mid = ''
+        for a, b in zip(cps, cps[1:]):
+            span = [chr(x) for x in range(a + 1, b)]
+            mid += ''.join(span[:2] + span[-2:]) if len(span) > 4 else ''.join(span)
+        return ''.join(dict.fromkeys(B + mid + 'a5 '))
+
+    def _wave4_cases(self, rng: random.Random, quick: bool) -> List[Case]:
+        out: List[Case] = []
+        # (C)/(D) every character order of multi-character sets x Python type; lines ending in every pair of characters
+        # inside / between / outside the set (exhaustive), behind a word, a blank and a number
+        for base in self.PERM_SETS:
+            E = self._between(base)
+            tails = [a + b for a in E for b in E] + list(E)
+            perms = [''.join(p) for p in itertools.permutations(base)]
+            if len(perms) > 6:
+                perms = perms[:2] + rng.sample(perms[2:], 6 if quick else 16)
+            for B in perms:
+                forms = ['str', 'set', 'list'] if B == perms[0] or not quick else ['str']
+                for form in forms:
+                    lines = [p + t for p in (('ab', '16') if quick else ('ab', 'a ', '16', '')) for t in tails]
+                    out.append(Case('words', {'B': B, 'form': form, 'lines': lines},
+                                    ['enum', 'break-set-orders', 'form:' + form]))
+            for form in ('set', 'list', 'tuple'):
+                B = ''.join(rng.sample(base, len(base)))
+                out.append(Case('words', {'B': B, 'form': form, 'lines': [rand_line(rng, B) for _ in range(50)]},
+                                ['random', 'break-set-orders', 'form:' + form]))
+                out.append(Case('page_words', {'B': B, 'form': form, 'lines': [rand_line(rng, B) for _ in range(10)]},
+                                ['random', 'break-set-orders', 'form:' + form]))
+            short = enum_strings(base + 'a ', '', 2)
+            for B in perms[:3]:
+                out.append(Case('strip', {'B': B, 'pairs': [[e, s_] for e in short for s_ in ['b', base[1] + 'b', base[-1]]],
+                                          'words': []}, ['enum', 'break-set-orders']))
+            ends = [w + t for w in ('aB', 'x') for t in [''] + list(base) + [a + b for a in base for b in base]]
+            for B in perms[:6]:
+                out.append(Case('pairs', {'B': B, 'det': None, 'pairs': [[e, s_] for e in ends
+                                                                         for s_ in ('b', 'B', base[1] + 'b', '5')]},
+                                ['enum', 'no-detector', 'break-set-orders']))
+        # (D) detector options: ignorecase on / off explicitly, trained and as arbitrary records, capitals in either
+        # junction word (title case, all capitals, capital inside)
+        caps_e = ['Amster-', 'AMSTER-', 'amster-', 'Ver-', 'VER-', 'ver-', 'vEr', 'Hoog', 'ge-', 'Ge=', 'DE-', 'É-', 'ǅe-']
+        caps_s = ['dam', 'Dam', 'DAM', 'gadering', 'Gadering', 'gaDering', 'daan', 'Daan', 'A', 'én', 'Én', '12']
+        for i in range(6 if quick else 40):
+            B = rng.choice(BREAK_SETS)
+            ic = [True, True, False][i % 3]
+            g = {'seed': rng.randrange(10 ** 6), 'n': rng.choice([400, 1500]), 'B': B, 'ignorecase': ic,
+                 'p_break': rng.choice([0.2, 0.5, 0.8]), 'min_bigram': rng.choice([1, 5])}
+            corpus_lines = [l['text'] for l in gen_corpus(g) if l['text']]
+            pairs = []
+            for _ in range(120):
+                r = rng.random()
+                j = rng.randrange(len(corpus_lines) - 1)
+                a, b = corpus_lines[j], corpus_lines[j + 1]
+                if r < 0.35:
+                    pass
+                elif r < 0.6:      # the corpus pair with another capitalisation of the junction words
+                    a = a[:-8] + rng.choice([str.upper, str.lower, str.title, str.swapcase])(a[-8:])
+                    b = rng.choice([str.upper, str.lower, str.title, str.swapcase])(b[:8]) + b[8:]
+                elif r < 0.9:
+                    a, b = 'x ' + rng.choice(caps_e)[:-1] + rng.choice(B + B[0] * 2), rng.choice(caps_s) + ' y'
+                else:
+                    a, b = rand_line(rng, B, 8), rand_line(rng, B, 8)
+                pairs.append([a, b])
+            out.append(Case('pairs', {'B': rng.choice(BREAK_SETS), 'det': {'gen': g}, 'pairs': pairs},
+                            ['random', 'trained-detector', 'ignorecase:' + str(ic)]))
+        for i in range(30 if quick else 300):
+            B = rng.choice(BREAK_SETS)
+            es, ss = rng.sample(caps_e, 5), rng.sample(caps_s, 5)
+            low = rng.random() < 0.5      # a record as training with ignorecase leaves it: lower-case words only
+            vocab = es + ss + [e[:-1] for e in es if e] + [e + s_ for e in es for s_ in ss if rng.random() < 0.5] + \
+                [e.rstrip(B) + s_.lstrip(B) for e in es for s_ in ss if rng.random() < 0.5]
+            if low:
+                vocab = [v.lower() for v in vocab]
+            tables = random_tables(rng, B, sorted(set(v for v in vocab if v)))
+            tables['ignorecase'] = [True, True, False][i % 3]
+            out.append(Case('pairs', {'B': rng.choice(BREAK_SETS), 'det': {'tables': tables},
+                                      'pairs': [['x ' + e, s_ + ' y'] for e in es for s_ in ss]},
+                            ['random', 'table-detector', 'ignorecase:' + str(tables['ignorecase'])]))
         return out
 
     # ---------------------------------------------------------------- implementation
@@ -544,18 +669,35 @@ class C17(Check):
         th, ts = _real()
         k = case.kind
         if k in ('words', 'words_enum'):
-            kw = wbc_kw(case.input['B'])
-            return [call(th.get_line_words, l, **kw) for l in self._lines(case)]
+            B, form = case.input['B'], case.input.get('form', 'str')
+            ls = self._lines(case)
+            kw = wbc_kw(B, form)
+            arg = kw.get('word_break_chars')
+            before = sorted(arg) if isinstance(arg, (set, list)) else arg
+            out = [call(th.get_line_words, l, **kw) for l in ls]
+            # (A) the same calls once more, in the opposite order, with the SAME argument object: "never raises …
+            # for any string" holds for the thousandth call as for the first, and the answer is a function of the
+            # string and the set (a difference is attached to the first answer and judged by the oracle)
+            again = [call(th.get_line_words, l, **kw) for l in reversed(ls)][::-1]
+            for i, (a, b) in enumerate(zip(out, again)):
+                if a != b:
+                    out[i] = dict(a, again=b)
+            after = sorted(arg) if isinstance(arg, (set, list)) else arg
+            if before != after and out:
+                out[0] = dict(out[0], arg_changed=[before, after])
+            return out
         if k == 'resplit':
             return [[t for t in re.split(r'\b', l)] for l in case.input['lines']]
         if k == 'page_words':
             import pagexml.model.physical_document_model as pdm
-            kw = wbc_kw(case.input['B'])
+            kw = wbc_kw(case.input['B'], case.input.get('form', 'str'))
 
             def f():
                 lines = [pdm.PageXMLTextLine(text=t) for t in case.input['lines']]
                 page = pdm.PageXMLPage(text_regions=[pdm.PageXMLTextRegion(lines=lines)])
-                return list(th.get_page_lines_words(page, **kw))
+                first = list(th.get_page_lines_words(page, **kw))
+                second = list(th.get_page_lines_words(page, **kw))      # the same page object once more
+                return first if first == second else {'first': first, 'second': second}
             return call(f)
         if k == 'strip':
             B = case.input['B']
@@ -571,6 +713,7 @@ class C17(Check):
             B = case.input['B']
             wbd = make_detector(case.input['det'])
             Bw = ''.join(sorted(wbd.word_break_chars)) if wbd is not None else B     # None: get_line_words' default
+            det_before = export_detector(wbd)
             out = []
             for prev, curr in case.input['pairs']:
                 pw_r = call(th.get_line_words, prev, **wbc_kw(Bw))
@@ -582,8 +725,24 @@ class C17(Check):
                                 'decision': {'err': err}, 'split_raised': err})
                     continue
                 pw, cw = pw_r['ok'], cw_r['ok']
-                d = canon(call(ts.determine_word_break, cw, pw, wbd=wbd, **wbc_kw(B)))
-                out.append({'prev_words': pw, 'curr_words': cw, 'decision': d})
+                pw_in, cw_in = list(pw), list(cw)
+                d = canon(call(ts.determine_word_break, cw_in, pw_in, wbd=wbd, **wbc_kw(B)))
+                x = {'prev_words': pw, 'curr_words': cw, 'decision': d}
+                if pw_in != pw or cw_in != cw:
+                    x['words_changed'] = [pw_in, cw_in]
+                out.append(x)
+            # (A) the detector is a USED object: every pair is decided once more, in the opposite order, on the same
+            # detector; the answers must be the same and the detector's data untouched ("the detector is read, never
+            # written"); differences are attached and judged by the oracle
+            for x in reversed(out):
+                if 'split_raised' in x:
+                    continue
+                d2 = canon(call(ts.determine_word_break, list(x['curr_words']), list(x['prev_words']), wbd=wbd,
+                                **wbc_kw(B)))
+                if d2 != x['decision']:
+                    x['again'] = d2
+            if wbd is not None and out and export_detector(wbd) != det_before:
+                out[0]['detector_changed'] = True
             return out
         raise ValueError(k)
 
@@ -665,10 +824,17 @@ class C17(Check):
         if k in ('words', 'words_enum'):
             B0 = case.input['B']
             B = eff_B(_real()[0].get_line_words, B0)
+            form = case.input.get('form', 'str')
             for l, o in zip(self._lines(case), out):
-                one = Case('words', {'B': B0, 'lines': [l]}, case.tags)
+                one = Case('words', dict({'B': B0, 'lines': [l]}, **({'form': form} if form != 'str' else {})), case.tags)
+                if 'again' in o:
+                    bad('repeat-differs', f'get_line_words({l!r}, {B!r}) answered {short_(o)} the first time and '
+                                          f'{o["again"]} when called again in the same process', case, out)
+                if 'arg_changed' in o:
+                    bad('argument-changed', f'get_line_words changed the break characters it was given: '
+                                            f'{o["arg_changed"][0]} -> {o["arg_changed"][1]}', case, out)
                 if 'ok' not in o:
-                    bad('split-raises', f'get_line_words({l!r}, {B!r}) raised {o["err"]}', one, [o])
+                    bad('split-raises', f'get_line_words({l!r}, {B!r} as {form}) raised {o["err"]}', one, [o])
                     continue
                 ws = o['ok']
                 if l is None or l == '':
@@ -679,16 +845,19 @@ class C17(Check):
                     bad('empty-token', f'get_line_words({l!r}, {B!r}) = {ws} has an empty token', one, [o])
                 elif any(w.strip() == '' for w in ws):
                     bad('blank-token', f'get_line_words({l!r}, {B!r}) = {ws} has a whitespace-only token', one, [o])
-                if nospace(''.join(ws)) != nospace(norm_trail(l, B)):
+                if B is not None and nospace(''.join(ws)) != nospace(norm_trail(l, B)):
                     bad('conservation', f'get_line_words({l!r}, {B!r}) = {ws}: the non-whitespace characters are '
                                         f'{nospace("".join(ws))!r}, expected {nospace(norm_trail(l, B))!r}', one, [o])
         elif k == 'page_words':
             if 'ok' not in out:
                 bad('split-raises', f'get_page_lines_words raised {out["err"]}', case, out)
+            elif isinstance(out['ok'], dict):
+                bad('repeat-differs', f'get_page_lines_words gave {out["ok"]["first"]} and then {out["ok"]["second"]} '
+                                      f'on the same page', case, out)
         elif k == 'strip':
             B0 = case.input['B']
             B = eff_B(_real()[0].remove_word_break_chars, B0)
-            for (e, s), o, o2 in zip(case.input['pairs'], out['wbc'], out['wbc_set']):
+            for (e, s), o, o2 in zip(case.input['pairs'] if B is not None else [], out['wbc'], out['wbc_set']):
                 one = Case('strip', {'B': B0, 'pairs': [[e, s]], 'words': []}, case.tags)
                 sub = {'wbc': [o], 'wbc_set': [o2], 'hyphen': []}
                 if e == '' or s == '':
@@ -723,9 +892,17 @@ class C17(Check):
             det = case.input['det']
             wbd = make_detector(det)
             Bw = ''.join(sorted(wbd.word_break_chars)) if wbd is not None else B
+            if out and out[0].get('detector_changed'):
+                bad('detector-changed', 'determine_word_break changed the data of the detector it was given', case, out)
             for (prev, curr), x in zip(case.input['pairs'], out):
                 one = Case('pairs', {'B': B0, 'det': det, 'pairs': [[prev, curr]]}, case.tags)
                 pw, cw, d = x['prev_words'], x['curr_words'], x['decision']
+                if 'again' in x:
+                    bad('repeat-differs', f'determine_word_break on {prev!r} / {curr!r} answered {d} and, asked again '
+                                          f'with the same detector, {x["again"]}', case, out)
+                if 'words_changed' in x:
+                    bad('argument-changed', f'determine_word_break changed its word lists {pw} / {cw} to '
+                                            f'{x["words_changed"]}', one, [x])
                 if x.get('split_raised'):
                     bad('split-raises', f'get_line_words raised {x["split_raised"]} on {prev!r} or {curr!r} (B={Bw!r})',
                         one, [x])
@@ -741,6 +918,8 @@ class C17(Check):
                 e, s = pw[-1], cw[0]
                 if e == '' or s == '':
                     continue    # reported by the splitting oracle
+                if Bw is None or (det is None and B is None):
+                    continue    # the interface declares no default break characters: nothing to judge them by
                 # the two words joined with the break characters at the junction removed
                 i = 2 if len(e) >= 2 and e[-1] in Bw and e[-2] in Bw else (1 if e[-1] in Bw else 0)
                 reduced = e[:len(e) - i] + (s[1:] if s[0] in Bw else s)
@@ -760,7 +939,7 @@ class C17(Check):
 
     def nontrivial(self, case: Case) -> bool:
         if case.kind in ('words', 'words_enum'):
-            B = eff_B(_real()[0].get_line_words, case.input['B'])
+            B = eff_B(_real()[0].get_line_words, case.input['B']) or ''
             return any(l and any(c in B for c in l) and any(c.isspace() for c in l) and re.search(r'\w', l)
                        for l in self._lines(case)[:400])
         if case.kind == 'pairs':
